@@ -16,6 +16,7 @@ import (
 
 	"ogenverif/internal/core"
 	"ogenverif/internal/panicob"
+	"ogenverif/internal/ssaeval"
 )
 
 // onCycleWith reports whether block a lies on a CFG cycle that also contains block b (a reaches b and b reaches a).
@@ -554,7 +555,7 @@ func readsOtherFieldOf(v ssa.Value, elem ssa.Value, allowed string, depth int) s
 //	(b) an object decoder (DecodeURI of a struct, the closure never reads one scalar) for form+explode or deepObject
 //	    query style has the list of member names in its config: without Fields the server cannot tell the object's
 //	    members from other parameters and HasParam reports it absent.
-func checkParamDecoderShapes(c *core.Ctx, r *core.Rule, ex *core.Expansion) {
+func checkParamDecoderShapes(c *core.Ctx, r *core.Rule, ex *core.Expansion, deepFreeFormOK bool) {
 	for _, fx := range ex.Fixtures {
 		p := ex.Prog.PkgBy[fx.PkgPath]
 		if p == nil {
@@ -669,6 +670,8 @@ func checkParamDecoderShapes(c *core.Ctx, r *core.Rule, ex *core.Expansion) {
 					key := fmt.Sprintf("%s/%s:%s", fx.Name, fd.Name.Name, name)
 					if hasFields {
 						r.Pass(fmt.Sprintf("%s: object decoder has its member list", key))
+					} else if style == "uri.QueryStyleDeepObject" && deepFreeFormOK {
+						r.Pass(fmt.Sprintf("%s: free-form deepObject decoder; HasParam takes every name[key] (hasparam-deepobject:fields=0)", key))
 					} else {
 						r.Fail("object-without-fields:"+key, c.Pos(ifs.Pos()), fmt.Sprintf("%s decodes the object parameter %q (%s, explode=%s) without a Fields list: the server cannot find the object's members among the query keys and treats the parameter as absent, dropping what the client sent", fd.Name.Name, name, style, explode))
 					}
@@ -1571,4 +1574,146 @@ func checkCursorLoopsAcceptTrailingEmpty(c *core.Ctx, r *core.Rule, prog *core.P
 	if n == 0 {
 		r.Undecided("cursor-loop:none", "-", "no loop over cursor.readValue found in package uri")
 	}
+}
+
+// ---------------------------------------------------------------- HasParam never looks for the bare name of a deepObject parameter (C06, S1)
+
+// checkHasParamDeepObject folds uri.QueryDecoder.HasParam under the configuration (Style = deepObject, Explode = true)
+// for both an empty and a non-empty field list, following both sides of every branch that does not fold, and reports
+// any path that reaches the lookup of the bare parameter name in the query values: the encoder writes a deepObject
+// parameter as `name[key]=…` only, so a decoder that looks for `name` finds nothing and treats the parameter as absent.
+// It returns true when the rule held for the empty field list (free-form objects), which is what lets a generated
+// deepObject decoder without a Fields list pass rule (b) of checkParamDecoderShapes.
+func checkHasParamDeepObject(c *core.Ctx, r *core.Rule, prog *core.Prog) bool {
+	fn := prog.Func(pkgURI, "(*QueryDecoder).HasParam")
+	if fn == nil || len(fn.Params) != 2 {
+		r.Undecided("anchor:QueryDecoder.HasParam", "-", "method not found")
+		return false
+	}
+	deep := ""
+	if sp := prog.ByPath[pkgURI]; sp != nil {
+		if k, ok := sp.Members["QueryStyleDeepObject"].(*ssa.NamedConst); ok && k.Value.Value != nil && k.Value.Value.Kind() == constant.String {
+			deep = constant.StringVal(k.Value.Value)
+		}
+	}
+	if deep == "" {
+		r.Undecided("anchor:QueryStyleDeepObject", "-", "constant not found")
+		return false
+	}
+	cfgParam := fn.Params[1]
+	// loads of cfg's fields: through the spilled copy (*t0 = cfg; &t0.F; load) or ssa.Field on the parameter
+	fieldOf := func(v ssa.Value) string {
+		switch x := v.(type) {
+		case *ssa.UnOp:
+			if x.Op != token.MUL {
+				return ""
+			}
+			fa, ok := x.X.(*ssa.FieldAddr)
+			if !ok {
+				return ""
+			}
+			al, ok := fa.X.(*ssa.Alloc)
+			if !ok {
+				return ""
+			}
+			spilled := false
+			for _, ref := range *al.Referrers() {
+				if st, ok := ref.(*ssa.Store); ok && st.Addr == al {
+					if st.Val != cfgParam {
+						return ""
+					}
+					spilled = true
+				}
+			}
+			if !spilled {
+				return ""
+			}
+			return fieldName(fa.X.Type(), fa.Field)
+		case *ssa.Field:
+			if x.X == cfgParam {
+				st := x.X.Type().Underlying().(*types.Struct)
+				return st.Field(x.Field).Name()
+			}
+		}
+		return ""
+	}
+	var bare []ssa.Instruction
+	type bindT struct {
+		v    ssa.Value
+		kind string
+	}
+	var binds []bindT
+	for _, b := range fn.Blocks {
+		for _, in := range b.Instrs {
+			v, ok := in.(ssa.Value)
+			if !ok {
+				continue
+			}
+			switch f := fieldOf(v); f {
+			case "Style", "Explode":
+				binds = append(binds, bindT{v, f})
+			}
+			if call, ok := in.(*ssa.Call); ok {
+				if bi, ok := call.Call.Value.(*ssa.Builtin); ok && bi.Name() == "len" && len(call.Call.Args) == 1 && fieldOf(call.Call.Args[0]) == "Fields" {
+					binds = append(binds, bindT{call, "lenFields"})
+				}
+			}
+			if lk, ok := in.(*ssa.Lookup); ok && fieldOf(lk.Index) == "Name" {
+				bare = append(bare, lk)
+			}
+		}
+	}
+	if len(bare) == 0 {
+		// nothing to reach; the rule is about a lookup that exists today, its absence is a change of shape worth a look
+		r.Undecided("hasparam-deepobject:no-bare-lookup", c.Pos(fn.Pos()), "HasParam has no lookup keyed by cfg.Name any more: the rule's anchor is gone")
+		return false
+	}
+	okEmpty := false
+	for _, nFields := range []int64{0, 1} {
+		env := &ssaeval.Env{Bind: map[ssa.Value]ssaeval.Val{}, StopAt: map[ssa.Instruction]bool{}, Budget: 4000}
+		for _, b := range binds {
+			switch b.kind {
+			case "Style":
+				env.Bind[b.v] = constant.MakeString(deep)
+			case "Explode":
+				env.Bind[b.v] = constant.MakeBool(true)
+			case "lenFields":
+				env.Bind[b.v] = constant.MakeInt64(nFields)
+			}
+		}
+		for _, in := range bare {
+			env.StopAt[in] = true
+		}
+		outs := env.Explore(fn.Blocks[0], 200)
+		key := fmt.Sprintf("hasparam-deepobject:fields=%d", nFields)
+		reached, undecided, returns := false, "", 0
+		for _, o := range outs {
+			switch o.Kind {
+			case "stop":
+				reached = true
+			case "unknown":
+				undecided = o.Why
+			case "return":
+				returns++
+			}
+		}
+		switch {
+		case reached:
+			what := "a free-form object (no named properties)"
+			if nFields > 0 {
+				what = "an object with named properties"
+			}
+			r.Fail(key, c.Pos(bare[0].Pos()), fmt.Sprintf("QueryDecoder.HasParam with Style=deepObject, Explode=true and %s reaches the lookup of the bare parameter name: the encoder writes such a parameter as `name[key]=…` only, so the parameter is reported absent and what the client sent is dropped", what))
+		case undecided != "" && !strings.Contains(undecided, "branch on a value"):
+			r.Undecided(key, c.Pos(fn.Pos()), undecided)
+		case returns == 0:
+			r.Undecided(key, c.Pos(fn.Pos()), "no path of HasParam reaches a return under this configuration")
+		default:
+			r.Pass(fmt.Sprintf("%s: %d paths explored, none reaches the bare-name lookup", key, len(outs)))
+			if nFields == 0 {
+				okEmpty = true
+			}
+		}
+	}
+	return okEmpty
 }
